@@ -229,7 +229,26 @@ pub fn gen_plan(property: &str, seed: u64, index: u64, tier: Tier) -> Plan {
                 let mode = rng.below(10);
                 let depth = rng.range(1, 2) as i64;
                 knobs.insert("depth".into(), depth);
-                if mode < 4 {
+                if mode == 9 || mode == 8 {
+                    // ask (without playing the answer) at every position of a tempo-losing walk: the same
+                    // placement comes back with the other side to move inside one game
+                    scenario = "ask-along-lookalike-walk";
+                    let (_, s) = choose_start(&mut rng, &[(StartKind::Endgame, 3), (StartKind::Random, 1)]);
+                    start = s;
+                    let mut pos = start.clone();
+                    let mut seen = Seen::default();
+                    for _ in 0..rng.range(8, if thorough { 24 } else { 14 }) {
+                        ops.push(Op::EngineMove(1000 + rng.below(16) as u32));
+                        let legal = pos.legal_moves();
+                        if legal.is_empty() {
+                            break;
+                        }
+                        let k = choose_move_seen(&mut rng, &pos, &legal, Policy::Lookalike, None, &mut seen);
+                        ops.push(Op::Make(k as u32));
+                        pos = pos.make(&legal[k]);
+                    }
+                    ops.push(Op::EngineMove(1000));
+                } else if mode < 4 {
                     // follow the book for a while, leave it at a seeded ply, keep asking
                     scenario = "leave-book";
                     start = Pos::startpos();
@@ -815,6 +834,11 @@ pub fn exec(plan: &Plan) -> Outcome {
                                 break;
                             }
                         };
+                        if *choice >= 1000 {
+                            // asked only; the answer is not played
+                            stats.bump("probe/engine-asked-without-playing");
+                            continue;
+                        }
                         // play it, as the loops do
                         if game.apply_chess_move(em).is_err() {
                             out.violation = Some(Violation {
